@@ -127,6 +127,28 @@ static void vh_alarm(int sig) { (void) sig; vh_emit_raw('H'); _exit(3); }
 static void vh_abrt(int sig) { (void) sig; if (vh_in_script) vh_emit_raw('C'); _exit(4); }
 static void vh_atexit(void) { if (vh_in_script) { vh_emit_raw('Q'); _exit(5); } }
 
+/* progress record shared with the orchestrator (no system call per step): a death that leaves no C/H/Q line - e.g. a
+ * stack smash so large that the sanitizer dies inside its own report - is still charged to the right script and step */
+#include <sys/mman.h>
+#include <fcntl.h>
+typedef struct { volatile long sid; volatile int step; volatile int in_script; char op[40]; } vh_progress_t;
+static vh_progress_t vh_progress_dummy, *vh_progress = &vh_progress_dummy;
+static void vh_progress_open(void) {
+    const char *p = getenv("VH_PROGRESS"); int fd; void *m;
+    if (!p) return;
+    fd = open(p, O_RDWR | O_CREAT, 0600);
+    if (fd < 0) return;
+    if (ftruncate(fd, sizeof(vh_progress_t)) == 0) {
+        m = mmap(NULL, sizeof(vh_progress_t), PROT_READ | PROT_WRITE, MAP_SHARED, fd, 0);
+        if (m != MAP_FAILED) vh_progress = (vh_progress_t *) m;
+    }
+    close(fd);
+}
+static void vh_progress_set(long sid, int step, const char *op, int in_script) {
+    vh_progress->sid = sid; vh_progress->step = step; vh_progress->in_script = in_script;
+    strncpy(vh_progress->op, op, sizeof(vh_progress->op) - 1);
+}
+
 static size_t vh_heap(void) {
 #ifdef VH_ASAN
     return __sanitizer_get_current_allocated_bytes();
@@ -188,6 +210,7 @@ static int vh_main(int argc, char **argv, int fileidx) {
     signal(SIGALRM, vh_alarm);
     signal(SIGABRT, vh_abrt);
     atexit(vh_atexit);
+    vh_progress_open();
     buf = vh_readfile(argv[fileidx], &len);
     sb_need(&ret, 1 << 16); sb_need(&state, 1 << 16);
     printf("HELLO %s\n", argv[0]);     /* allocates stdio's buffer outside any measured window */
@@ -209,6 +232,7 @@ static int vh_main(int argc, char **argv, int fileidx) {
         if (ordinal++ < first) continue;
         nscripts++;
         vh_cur_step = -1; vh_cur_op = "begin";
+        vh_progress_set(vh_cur_sid, -1, "begin", 1);
         {   /* grow the token builders OUTSIDE the measured window: the largest expected token of this script, with slack */
             size_t need = 1 << 16; int q;
             for (q = 0; q < n; q++) {
@@ -226,6 +250,7 @@ static int vh_main(int argc, char **argv, int fileidx) {
         for (i = 0; i < n; i++) {
             const char *inv; int record;
             vh_cur_step = i; vh_cur_op = steps[i].op;
+            vh_progress_set(vh_cur_sid, i, steps[i].op, 1);
             sb_reset(&ret); sb_reset(&state);
             inv = vh_step(&steps[i], &ret, &state);
             nsteps++;
@@ -248,9 +273,11 @@ static int vh_main(int argc, char **argv, int fileidx) {
             }
         }
         vh_cur_step = n; vh_cur_op = "end";
+        vh_progress_set(vh_cur_sid, n, "end", 1);
         vh_end();
         alarm(0);
         vh_in_script = 0;
+        vh_progress_set(vh_cur_sid, n, "done", 0);
         h1 = vh_heap();
         if (vh_check_heap && !abandoned && h1 != h0) {
             printf("X %ld %d heap end exp=%lu got=%lu\n", vh_cur_sid, n, (unsigned long) h0, (unsigned long) h1);
